@@ -48,6 +48,10 @@ func checkIs(scen string, in IsIn) []*mc.Violation {
 		out = append(out, mc.V(scen, "is-symmetric", in, "a.Is(b) == b.Is(a)", fmt.Sprintf("%v vs %v", ab, ba), archFeatures(in.A, in.B)...))
 	}
 	ra, rb := gen.DenoteArch(in.A), gen.DenoteArch(in.B)
+	// the library's own wildcard predicate agrees with the denotation: a wildcard has an 'any' component, 'all' is none
+	if w := a.IsWildcard(); w != !ra.Concrete() {
+		out = append(out, mc.V(scen, "wildcard-iff-some-component-is-any", in, fmt.Sprintf("%q.IsWildcard() = %v", in.A, !ra.Concrete()), fmt.Sprint(w), archFeatures(in.A)...))
+	}
 	if ra.Concrete() {
 		want := gen.RefMatch(ra, rb) && (rb.Concrete() || true)
 		if rb.Concrete() {
@@ -458,6 +462,9 @@ func Run(r *mc.Run) {
 			for nm := 0; nm < 3; nm++ { // naming: all distinct / all equal / equal across relations
 				try(PossIn{[][]int{rels[i]}, a, nm})
 				for j := range rels {
+					if nm != 0 && len(rels[i])+len(rels[j]) > 4 {
+						continue // shared names: up to four alternatives in all (2+2, 3+1, 1+3)
+					}
 					try(PossIn{[][]int{rels[i], rels[j]}, a, nm})
 				}
 			}
